@@ -72,6 +72,77 @@ pub fn render_doc(doc: &Value) -> Vec<u8> {
     out
 }
 
+/// Feedback tokens (k = "fb", s = rule, n = index): one header line derived from the server's OWN answer to the same request
+/// without that line.  Rule "echo": a response header sent back as it came.  Rule "if": the conditional request header that
+/// belongs to a validator in the answer, the validator's name keeping whatever suffix the server gave it
+/// (Last-Modified<sfx> -> If-Modified-Since<sfx>, If-Unmodified-Since<sfx>; ETag<sfx> -> If-None-Match<sfx>, If-Match<sfx>;
+/// Date<sfx> -> If-Modified-Since<sfx>), with the value as it came, one more, one less, 0 and a 23-digit number.
+/// The n-th candidate (in header order) is rendered; nothing when there are fewer.
+fn feedback_lines(hs: &Value, rule: &str) -> Vec<Vec<u8>> {
+    let mut out = vec![];
+    for h in hs.as_array().cloned().unwrap_or_default() {
+        let name = h["n"].as_str().unwrap_or("").to_string();
+        let value = h["v"].as_str().unwrap_or("").to_string();
+        if name.is_empty() {
+            continue;
+        }
+        if rule == "echo" {
+            out.push(format!("{}: {}\r\n", name, value).into_bytes());
+            continue;
+        }
+        let lower = name.to_ascii_lowercase();
+        let derived: Vec<String> = if let Some(sfx) = lower.strip_prefix("last-modified") {
+            let sfx = &name[name.len() - sfx.len()..];
+            vec![format!("If-Modified-Since{}", sfx), format!("If-Unmodified-Since{}", sfx)]
+        } else if let Some(sfx) = lower.strip_prefix("etag") {
+            let sfx = &name[name.len() - sfx.len()..];
+            vec![format!("If-None-Match{}", sfx), format!("If-Match{}", sfx)]
+        } else if let Some(sfx) = lower.strip_prefix("date") {
+            let sfx = &name[name.len() - sfx.len()..];
+            vec![format!("If-Modified-Since{}", sfx)]
+        } else {
+            vec![]
+        };
+        let mut values = vec![value.clone()];
+        if let Ok(x) = value.trim().parse::<u128>() {
+            values.push((x + 1).to_string());
+            values.push(x.saturating_sub(1).to_string());
+        }
+        values.push("0".to_string());
+        values.push("99999999999999999999999".to_string());
+        for d in derived {
+            for v in &values {
+                out.push(format!("{}: {}\r\n", d, v).into_bytes());
+            }
+        }
+    }
+    out
+}
+
+fn render_with_feedback(doc: &Value) -> Vec<u8> {
+    let toks = doc.as_array().unwrap();
+    if !toks.iter().any(|t| t["k"] == "fb") {
+        return render_doc(doc);
+    }
+    // the answer to the request without the feedback line (feedback tokens render as nothing)
+    let (mock, wire) = Mock::new(render_doc(doc));
+    let _ = guarded(move || Server::process(mock, connection_info(10000), App::new()));
+    let first = wire.lock().unwrap().accepted.clone();
+    let hs = project(&first, "head")["hs"].clone();
+    let mut out: Vec<u8> = vec![];
+    for t in toks {
+        if t["k"] == "fb" {
+            let lines = feedback_lines(&hs, t["s"].as_str().unwrap_or("echo"));
+            if let Some(l) = lines.get(t["n"].as_u64().unwrap_or(0) as usize) {
+                out.extend_from_slice(l);
+            }
+        } else {
+            out.extend_from_slice(&render_doc(&json!([t])));
+        }
+    }
+    out
+}
+
 fn script_of(case: &Value, mock: &mut Mock) {
     let sc = &case["script"];
     let at = sc["at"].as_u64().unwrap_or(0) as usize;
@@ -100,7 +171,7 @@ pub fn make_site(root: &Path) {
 }
 
 fn run_case(i: usize, case: &Value, obs: &str, out: &mut dyn FnMut(&Value)) {
-    let bytes = render_doc(&case["doc"]);
+    let bytes = render_with_feedback(&case["doc"]);
     // the method as the server will read it: the first blank-delimited word of the rendered bytes (two mutations can cancel out:
     // the method token duplicated and the first copy emptied renders the original request)
     let method = {
